@@ -25,6 +25,7 @@ var (
 	fCur     = flag.String("verif.cur", "", "file that always holds the case being executed")
 	fMaxRuns = flag.Int64("verif.maxruns", 0, "stop after this many runs (0: budget only)")
 	fDet     = flag.Int("verif.det", 0, "record result hashes of the first N runs")
+	fRace    = flag.Bool("verif.race", false, "race-detector configuration of the engine (binary built with -race)")
 	fDump    = flag.String("verif.dumpcase", "", "debug: write the case with this hash as a replay file to dumpcase.json")
 )
 
@@ -85,6 +86,7 @@ func TestProp(t *testing.T) {
 	}
 	eng := Engines[engName]
 	known := loadKnown(*fKnown)
+	RaceMode = *fRace
 
 	if *fReplay != "" {
 		b, err := os.ReadFile(*fReplay)
